@@ -441,6 +441,9 @@ class Options:
         self.extra = extra or {}
 
 
+_NO_HELPER = object()
+
+
 class PC(list):
     """the path condition.  A fact added while a comprehension element is being evaluated speaks about that element: it is
     closed over the bound variables of the enclosing quantifier frames (whoever adds it, with assume / append / +=)"""
@@ -468,6 +471,7 @@ class Run:
         self.fspec, self.fdef, self.mod, self.explorer, self.opts = fspec, fdef, mod, explorer, opts
         self.pc = PC(self)
         self.skolems = set()
+        self.inline_depth = 0
         self.env = {}
         self.events = []
         self.obligations = []
@@ -1013,7 +1017,25 @@ class Run:
             return self.ex_Constant(ast.Constant(mod.constants[n]))
         if n in BUILTIN_NAMES:
             return Module('builtins.' + n)
+        ge = getattr(mod, 'global_exprs', {}).get(n)
+        if ge is not None and len(ge) == 1 and n not in mod.constants and not self._rebinds_global(n):
+            # a module-level name bound once to a pure expression of constants (numbers, module constants): its value
+            if all(isinstance(x, (ast.Constant, ast.Name, ast.Attribute, ast.BinOp, ast.UnaryOp, ast.operator, ast.unaryop,
+                                  ast.expr_context)) for x in ast.walk(ge[0])):
+                saved = self.env
+                self.env = {}
+                try:
+                    return self.ev(ge[0])
+                finally:
+                    self.env = saved
         raise Unsupported(f"line {self.cur_line}: name {n}")
+
+    def _rebinds_global(self, n):
+        mod = self.modstack[-1]
+        for node in ast.walk(mod.tree):
+            if isinstance(node, ast.Global) and n in node.names:
+                return True
+        return False
 
     def resolve_global(self, dotted):
         last = dotted.split('.')[-1]
@@ -1033,6 +1055,8 @@ class Run:
             from . import pylib
             if o.path + '.' + attr in pylib.VALUE_ATTRS:
                 return pylib.module_value(self, o.path + '.' + attr)
+            if o.path + '.' + attr in pylib.NUMERIC_CONSTANTS:
+                return SNum(z3.RealVal(pylib.NUMERIC_CONSTANTS[o.path + '.' + attr]))
             return Module(o.path + '.' + attr)
         if isinstance(o, SObj):
             f = o.getfield(attr)
@@ -1047,6 +1071,8 @@ class Run:
                 return Bound(o, attr)
             if o.fields is not None and attr in o.spec().all_fields():
                 raise PyRaise('AttributeError', f"field {attr} unset")
+            if o is self.env.get('self') and self._source_method(attr) is not None:
+                return Bound(o, attr)       # a method of the class without a contract: executed in place at the call
             raise Unsupported(f"line {self.cur_line}: attribute {o.cls}.{attr}")
         if isinstance(o, SuperRef):
             return Bound(o, attr)
@@ -1570,6 +1596,9 @@ class Run:
             if isinstance(recv, SObj):
                 key = self.resolve_method(recv.cls, f.name)
                 if key is None:
+                    r = self.inline_helper(recv, f.name, args, kwargs)
+                    if r is not _NO_HELPER:
+                        return r
                     raise Unsupported(f"method {recv.cls}.{f.name}")
                 if FUNCS[key].kind == 'static':
                     return self.call_contract(FUNCS[key], None, args, kwargs)
@@ -1580,12 +1609,62 @@ class Run:
         if isinstance(f, FuncRef):
             if f.key in FUNCS:
                 return self.call_contract(FUNCS[f.key], None, args, kwargs)
+            mod = self.modstack[-1]
+            fdef = mod.functions.get(f.key.split('.')[-1])
+            if fdef is not None and self._may_inline(fdef):
+                self.trusted.add(f"helper {f.key} has no contract: its body (read from the source) is executed in place")
+                self.inline_depth += 1
+                try:
+                    return self.inline_body(mod, None, fdef, None, args, kwargs)
+                finally:
+                    self.inline_depth -= 1
             raise Unsupported(f"call of module function {f.key} without a contract")
         if isinstance(f, SObj):
             key = self.resolve_method(f.cls, '__call__')
             if key is not None:
                 return self.call_contract(FUNCS[key], f, args, kwargs)
         raise Unsupported(f"line {self.cur_line}: call of {f}")
+
+    def _may_inline(self, fdef):
+        """a helper without a contract is executed in place if it is small, loop-free and not nested too deep"""
+        if self.inline_depth >= 3:
+            return False
+        for n in ast.walk(fdef):
+            if isinstance(n, (ast.For, ast.While, ast.Yield, ast.YieldFrom, ast.Lambda, ast.AsyncFunctionDef)):
+                return False
+            if isinstance(n, ast.FunctionDef) and n is not fdef:
+                return False
+        return True
+
+    def _source_method(self, name):
+        if not self.clsstack or not self.modstack or self.clsstack[-1] is None:
+            return None
+        mod, cur = self.modstack[-1], self.clsstack[-1]
+        cinfo = mod.classes.get(cur)
+        if cinfo is not None and name in cinfo[1]:
+            return mod, cur, cinfo[1][name]
+        return find_base_method(mod, cur, name)
+
+    def inline_helper(self, recv, name, args, kwargs):
+        """a method of `self` that has no contract (e.g. one introduced by an extract-method refactoring): its body, read from
+        the class of the function under verification or its bases, is executed in place - exact semantics, no assumption"""
+        if recv is not self.env.get('self') or not self.clsstack or not self.modstack:
+            return _NO_HELPER
+        target = self._source_method(name)
+        if target is None:
+            return _NO_HELPER
+        bmod, bcls, fdef = target
+        if any(isinstance(d, ast.Name) and d.id in ('classmethod', 'property') for d in fdef.decorator_list):
+            return _NO_HELPER
+        static = any(isinstance(d, ast.Name) and d.id == 'staticmethod' for d in fdef.decorator_list)
+        if not self._may_inline(fdef):
+            return _NO_HELPER
+        self.trusted.add(f"helper {bcls}.{name} has no contract: its body (read from the source) is executed in place")
+        self.inline_depth += 1
+        try:
+            return self.inline_body(bmod, bcls, fdef, None if static else recv, args, kwargs)
+        finally:
+            self.inline_depth -= 1
 
     def call_super(self, e):
         """constructor chaining: super().__init__(...) executes the base class body read from the same files"""
@@ -1881,7 +1960,7 @@ class PyEmptyDict(SV):
     typ = None
 
 
-BUILTIN_NAMES = {'len', 'sum', 'max', 'min', 'set', 'list', 'dict', 'range', 'zip', 'enumerate', 'reversed', 'float', 'int',
+BUILTIN_NAMES = {'len', 'sum', 'max', 'min', 'set', 'list', 'dict', 'range', 'zip', 'enumerate', 'reversed', 'sorted', 'float', 'int',
                  'str', 'isinstance', 'hasattr', 'abs', 'round', 'all', 'any', 'type', 'iter', 'tuple',
                  'NotImplementedError', 'ValueError', 'KeyError', 'TypeError', 'AttributeError', 'Exception',
                  'ZeroDivisionError', 'ImportError', 'UserWarning', 'DeprecationWarning', 'print', 'super'}
